@@ -10,6 +10,11 @@ d, k, style = cfg["dir"], cfg["version"], cfg["style"]
 BODY = ("import json, os\n\n\ndef f(x):\n    fd = os.open({log!r}, os.O_WRONLY | os.O_APPEND)\n    os.write(fd, (json.dumps(['v{k}', x]) + '\\n').encode())\n"
         "    os.close(fd)\n    return ('v{k}', x)\n")
 
+if cfg.get("shape"):
+    sys.path.insert(0, os.path.dirname(os.path.dirname(os.path.abspath(__file__))))
+    from vlib import c12_shapes
+    BODY = c12_shapes.OUT_SRC.replace("{log!r}", repr(cfg["log"])).replace("{", "{{").replace("}", "}}") + c12_shapes.SHAPES[cfg["shape"]]
+
 if style == "module":
     path = os.path.join(d, "c12pmod.py")
     new = BODY.format(log=cfg["log"], k=k)
